@@ -89,6 +89,8 @@ Proof.
     apply in_map_iff. exists a. split; [reflexivity|apply in_zrange; cbn; lia].
 Qed.
 
+Opaque sz_table pow_table.
+
 Lemma in_table x :
   In x sz_table <-> exists a b, 0 <= a < 25 /\ 0 <= b < 15 /\ x = 2 ^ a * 3 ^ b.
 Proof.
@@ -138,7 +140,7 @@ Lemma ns_optim_bound_tight :
 Proof. eexists. split; [vm_compute; reflexivity|]. split; vm_compute; congruence || reflexivity. Qed.
 
 Lemma ns_optim_ge n m : ns_optim n = Some m -> n <= m.
-Proof. intros H. exact (proj1 (search_spec sz_table table_sorted n m H)). Qed.
+Proof. intros H. unfold ns_optim in H. exact (proj1 (search_spec sz_table table_sorted n m H)). Qed.
 
 Definition table_max : Z := 80244904034304.    (* 2^24 * 3^14 *)
 
@@ -146,9 +148,9 @@ Lemma ns_optim_some n : n <= table_max -> exists m, ns_optim n = Some m /\ n <= 
 Proof.
   intros Hn.
   assert (HB : In table_max sz_table).
-  { apply (proj2 (in_table _)). exists 24, 14. repeat split; try lia. vm_compute. reflexivity. }
+  { apply (proj2 (in_table _)). exists 24, 14. repeat split; try lia. }
   destruct (search_total sz_table n table_max HB Hn) as [m Hm].
-  exists m. split; [exact Hm|]. now apply ns_optim_ge.
+  exists m. split; [exact Hm|]. apply ns_optim_ge. exact Hm.
 Qed.
 
 (* ------------------------------------------------------------------ *)
